@@ -145,7 +145,9 @@ def setup(c):
                      "`dump` lines compare the ordered index and latestVersions; a quarter of the cases start with the directed hole family "
                      "(3..6 regions, cache warmed over the whole key space, need-reload flag or invalidation on one or two MIDDLE regions, then "
                      "batch/range lookups spanning them, also with ranges starting inside the flagged region and under a stale PD view); "
-                     "distinct = distinct op lines")
+                     "conv <key> <inval|reload|epochnm>: request attempts against the live PD until the location is the current region (at most one rejected), "
+                     "then one more LocateKey that must not reach PD (round trips counted in the harness' PD wrapper); expire/sendfail ops; every 150th case "
+                     "sends 2100-2600 request ranges in one BatchLocateKeyRanges call; distinct = distinct op lines")
     c.assumptions = [
         "keys pass through CodecPDClient (memcomparable encoding, ModeTxn); the model works on raw keys (order isomorphism: C19)",
         "mu.regions is modelled as derived from the ordered index (a VerID determines the key range); checked by every dump",
